@@ -243,6 +243,10 @@ def driver_block(args):
                     outs.append(('return', mark))
                 except (E.CalculationError, E.ParameterError) as exc:
                     outs.append((type(exc).__name__, mark))
+                except (sx.Unsupported, sx._Infeasible):
+                    raise
+                except Exception as exc:  # e.g. the driver reaching for something an isotherm's adsorbate does not promise
+                    outs.append((f"other:{type(exc).__name__}: {str(exc)[:80]}", mark))
                 isos.append(iso), datas.append((ps, ls, req)), given.append(am)
         finally:
             PMi.psd_horvath_kawazoe, PMi.psd_horvath_kawazoe_ry, PMi.get_iso_loading_and_pressure_ordered = saved
